@@ -24,6 +24,9 @@ pub enum FStep {
 pub struct FifoCase {
     pub cfg: CfgSpec,
     pub steps: Vec<FStep>,
+    /// keys strictly decreasing over time instead of increasing (both are the documented FIFO use)
+    #[serde(default)]
+    pub descending: bool,
 }
 
 pub fn strategy(max_steps: usize) -> impl Strategy<Value = FifoCase> {
@@ -36,8 +39,9 @@ pub fn strategy(max_steps: usize) -> impl Strategy<Value = FifoCase> {
     (
         crate::gen::cfg_spec(crate::gen::BlobMode::Either, false),
         vec(step, 3..=max_steps),
+        any::<bool>(),
     )
-        .prop_map(|(cfg, steps)| FifoCase { cfg, steps })
+        .prop_map(|(cfg, steps, descending)| FifoCase { cfg, steps, descending })
 }
 
 fn now_ns() -> u128 {
@@ -121,7 +125,11 @@ fn run_inner(case: &FifoCase, root: &Path) -> Result<Stats, (usize, String)> {
             FStep::Flush { n, len } => {
                 for _ in 0..*n {
                     counter += 1;
-                    let key = counter.to_be_bytes().to_vec();
+                    let key = if case.descending {
+                        (u32::MAX - counter).to_be_bytes().to_vec()
+                    } else {
+                        counter.to_be_bytes().to_vec()
+                    };
                     let l = value_len(*len).max(4);
                     let mut v = vec![0u8; l];
                     v[..4].copy_from_slice(&counter.to_le_bytes());
@@ -234,6 +242,9 @@ fn run_inner(case: &FifoCase, root: &Path) -> Result<Stats, (usize, String)> {
                 }
                 if !removed.is_empty() && !retained.is_empty() {
                     stats.bump("f.partial_drop");
+                    if case.descending {
+                        stats.bump("f.partial_drop_descending_keys");
+                    }
                 }
                 if !removed.is_empty() {
                     stats.bump("f.dropped");
